@@ -4,9 +4,11 @@
 pub mod conv;
 pub mod dynpath;
 pub mod r#gen;
+pub mod hcaps;
 pub mod hdrraw;
 pub mod hgen;
 pub mod io;
+pub mod lazyrw;
 pub mod model;
 pub mod rawbam;
 pub mod reuse;
